@@ -77,9 +77,9 @@ def install_sow(R):
         q = z3.Const(fresh_name("q"), V)
         g0, g1 = fr.old.ghost, fr.st.ghost
         a, b = eng.as_V(p1), eng.as_V(p2)
-        same = z3.And(z3.Select(g1["FS_ex"].t, q) == z3.Select(g0["FS_ex"].t, q), z3.Select(g1["FS_ct"].t, q) == z3.Select(g0["FS_ct"].t, q),
-                      z3.Select(g1["FS_ok"].t, q) == z3.Select(g0["FS_ok"].t, q))
-        return mk_bool(z3.ForAll([q], z3.Implies(z3.And(q != a, q != b), same)))
+        same = R.symbols["same_at"](g0, g1, q)
+        istmp = z3.Function("istmp", V, z3.BoolSort())
+        return mk_bool(z3.ForAll([q], z3.Implies(z3.And(q != a, q != b, z3.Not(istmp(q))), same)))
     S["fs_same_except2"] = fs_same_except2
 
     def results_untouched(eng, fr, loc):
@@ -87,8 +87,7 @@ def install_sow(R):
         i = z3.Int(fresh_name("i"))
         g0, g1 = fr.old.ghost, fr.st.ghost
         p = S["ResultPath"](eng, fr, loc, mk_int(i)).t
-        return mk_bool(z3.ForAll([i], z3.And(z3.Select(g1["FS_ex"].t, p) == z3.Select(g0["FS_ex"].t, p), z3.Select(g1["FS_ct"].t, p) == z3.Select(g0["FS_ct"].t, p),
-                                             z3.Select(g1["FS_ok"].t, p) == z3.Select(g0["FS_ok"].t, p)), patterns=[p]))
+        return mk_bool(z3.ForAll([i], R.symbols["same_at"](g0, g1, p), patterns=[p]))
     S["results_untouched"] = results_untouched
 
     info_saved = ("saved", "fs_exists(InfoPath(self.location)) and fs_complete(InfoPath(self.location)) and "
